@@ -58,7 +58,8 @@ ASSUMPTIONS = [
     "GridBase._coords_full)",
     "derivatives only for ASTs of differentiable nodes known to sympy (no Abs, jumps, hypot, exp2, "
     "user functions)",
-    "a sympy.simplify call that does not return within 6 s is skipped (counted, not judged)",
+    "a sympy.simplify call that does not return within 6 s or ends in a RecursionError is skipped "
+    "(counted, not judged)",
 ]
 
 TOLK = 64.0  # numpy route
@@ -79,7 +80,8 @@ def time_limit(seconds):
         raise _Timeout()
 
     old = signal.signal(signal.SIGALRM, handler)
-    signal.setitimer(signal.ITIMER_REAL, seconds)
+    # periodic: sympy swallows exceptions in a few places, so the alarm keeps firing every second
+    signal.setitimer(signal.ITIMER_REAL, seconds, 1.0)
     try:
         yield
     finally:
@@ -92,6 +94,10 @@ def accept(fn, text, what):
     the frozen grammar, declared variables/constants): a validation error is a violation here."""
     try:
         return fn()
+    except RecursionError:
+        # sympy.simplify occasionally recurses without end (observed with Mod in relations); like a
+        # simplify call that does not return this is counted and not judged
+        raise _Timeout() from None
     except (ValueError, RuntimeError, NotImplementedError, TypeError, KeyError, AttributeError) as e:
         raise Violation(f"{what}: sound input `{text}` rejected with {type(e).__name__}: {str(e)[:300]}",
                         key=f"rejected-sound-input:{what}:{type(e).__name__}") from None
@@ -267,11 +273,28 @@ def build_env(case):
                 shapes.append(())
     full = np.broadcast_shapes(*shapes) if shapes else ()
     envd = {}
+    anchors = []
+    for a in ([case["ast"]] if "ast" in case else case.get("asts", [])):
+        anchors += G.jump_anchors(a)
     for i, v in enumerate(vs):
         shp = shapes[i]
         if v.get("n"):
             shp = (int(v["n"]), *shp)
         val = G.values_in_range(seed + 7 * i, shp, v["lo"], v["hi"])
+        # aim at jumps with exactly computed arguments (heaviside(x - 0.5), x >= 1 ...): the first
+        # point sits on the jump, so that the value *at* the jump is judged
+        for aname, aidx, aval in anchors:
+            if aname == v["name"] and v["lo"] <= aval <= v["hi"] and (val.ndim > 0 or seed % 2 == 0):
+                if v.get("n"):
+                    if aidx is not None and aidx < val.shape[0]:
+                        val[aidx].flat[0:1] = aval
+                        if val[aidx].ndim == 0:
+                            val[aidx] = aval
+                elif aidx is None:
+                    if val.ndim:
+                        val.flat[0] = aval
+                    else:
+                        val = np.array(aval)
         envd[v["name"]] = float(val) if val.shape == () else val
     consts = {}
     for c in case["consts"]:
@@ -855,9 +878,12 @@ def check_number(case):
             raise Violation(f"parse_number({v!r}) returned {got!r}", key="number:passthrough")
         return {"nt": False, "labels": ["number-passthrough"]}
     text, alts = G.render_info(ast, case["shape_seed"])
-    with time_limit(SIMPLIFY_LIMIT):
-        got = accept(lambda: parse_number(text, envd if envd or case["seed"] % 2 else None), text,
-                     "parse_number")
+    try:
+        with time_limit(SIMPLIFY_LIMIT):
+            got = accept(lambda: parse_number(text, envd if envd or case["seed"] % 2 else None), text,
+                         "parse_number")
+    except _Timeout:
+        return {"nt": False, "labels": ["simplify-timeout"]}
     if isinstance(got, complex):
         raise Violation(f"parse_number(`{text}`, {envd}) returned the complex number {got!r}",
                         key="number:complex")
@@ -1032,6 +1058,9 @@ SUBCHECKS = [
     SubCheck("parse_number", strategy=number_cases, check=check_number, mode="pure",
              budget={"quick": 1500, "thorough": 30000}, shards={"quick": 1, "thorough": 2},
              rule="non-trivial = depth >= 2 with a non-commutative operator"),
+    SubCheck("evaluate_fields_jit", strategy=evaluate_cases, check=check_evaluate_jit, mode="jit",
+             budget={"quick": 24, "thorough": 500}, shards={"quick": 1, "thorough": 2},
+             rule="non-trivial = depth >= 2 depending on a field"),
     SubCheck("mod_in_negative_product", strategy=known_mod_cases, check=check_known_mod, mode="jit",
              budget={"quick": 40, "thorough": 400}, shards={"quick": 1, "thorough": 1},
              rule="aimed family sign*coefficient*(a % m)*b and a % (1/b) (repaired defects " + KNOWN_MOD_KEY + ")"),
